@@ -83,6 +83,8 @@ class Model:
     protocol_nr: bool = False
     group_by: str = ""
     top: list = field(default_factory=list)  # Leaf | Block
+    indent: str = "  "   # settings no operation of the alphabet may change
+    max_ncwb: int = 16
 
     def flat(self):
         out = []
@@ -269,6 +271,7 @@ def seeds(seed):
 
 
 SEED_VERSION = ["", "9.3(8)", "15.2(4)M"]  # the third seed renders names from the IOS 15 table
+SEED_KW = [dict(), dict(indent=" "), dict(indent="   ", max_ncwb=20)]  # non-default settings
 NEW_ENTRY = dict(ios="permit udp host 10.250.0.9 any eq 123", nxos="permit udp host 10.250.0.9 any eq 123")
 
 
@@ -290,14 +293,15 @@ def build(si, ctx):
     platform, lines, members, group_by = seeds(ctx.seed)[si]
     head = "ip access-list extended A" if platform == "ios" else "ip access-list A"
     acl = Acl(head + "\n" + "\n".join(" " + x for x in lines), platform=platform,
-              version=SEED_VERSION[si])
+              version=SEED_VERSION[si], **SEED_KW[si])
     for o in acl.items:
         if isinstance(o, Ace):
             for side in ("srcaddr", "dstaddr"):
                 adr = getattr(o, side)
                 if adr.addrgroup:
                     adr.items = list(members[adr.addrgroup])
-    model = Model(platform, top=[_leaf_from_line(x, platform, members) for x in lines])
+    model = Model(platform, top=[_leaf_from_line(x, platform, members) for x in lines],
+                  indent=SEED_KW[si].get("indent", "  "), max_ncwb=SEED_KW[si].get("max_ncwb", 16))
     if group_by:
         acl.group(group_by)
         acl.resequence(10, 10)
@@ -349,7 +353,8 @@ def real_apply(acl, op):
         acl = Acl(**acl.data())
     elif op == "reparse":
         acl = Acl(acl.line, platform=acl.platform, version=str(acl.version), port_nr=acl.port_nr,
-                  protocol_nr=acl.protocol_nr, group_by=acl.group_by, indent=acl.indent)
+                  protocol_nr=acl.protocol_nr, group_by=acl.group_by, indent=acl.indent,
+                  max_ncwb=acl.max_ncwb)
     elif op == "delete_shadow":
         acl.delete_shadow()
     elif op == "ungroup_ports":
@@ -393,11 +398,17 @@ def check_state(acl, model, case, ctx):
         ctx.viol("state:text_not_a_fixed_point", case, again.line, acl.line)
         return False
     # configuration
-    if (acl.platform, acl.port_nr, acl.protocol_nr, acl.group_by) != \
-            (model.platform, model.port_nr, model.protocol_nr, model.group_by):
+    if (acl.platform, acl.port_nr, acl.protocol_nr, acl.group_by, acl.indent, acl.max_ncwb) != \
+            (model.platform, model.port_nr, model.protocol_nr, model.group_by, model.indent, model.max_ncwb):
         ctx.viol("state:configuration_differs_from_model", case,
-                 (acl.platform, acl.port_nr, acl.protocol_nr, acl.group_by),
-                 (model.platform, model.port_nr, model.protocol_nr, model.group_by))
+                 (acl.platform, acl.port_nr, acl.protocol_nr, acl.group_by, acl.indent, acl.max_ncwb),
+                 (model.platform, model.port_nr, model.protocol_nr, model.group_by, model.indent,
+                  model.max_ncwb))
+        return False
+    body = acl.line.split("\n")[1:]
+    if any(not ln.startswith(model.indent) or ln[len(model.indent):len(model.indent) + 1].isspace()
+           for ln in body if ln):
+        ctx.viol("state:indentation_differs_from_setting", case, acl.line, repr(model.indent))
         return False
     # (2) denotation of the text == model leaves
     try:
